@@ -1,12 +1,75 @@
 /-
-  Line-protocol handlers for C15.  `handle` receives the tokens after the property id.
+  Line-protocol handlers for C15 (population size).  `handle` receives the tokens after the
+  property id.  Model ops run `Model/Steps.lean`; `prop_*` ops evaluate the Lean-side predicate on
+  an IMPLEMENTATION output.
 -/
 import GEVerif.Model.Sexp
+import GEVerif.Model.Steps
+import GEVerif.Model.StepsWire
 
 namespace GEVerif.Drive.C15
-open GEVerif Sexp
+open GEVerif GEVerif.Steps Sexp StepsWire
+
+def ofRanges (rs : List (Nat × Nat)) : Sexp := list (rs.map fun p => list [ofNat p.1, ofNat p.2])
+
+def parseRanges (s : Sexp) : Option (List (Nat × Nat)) := do
+  (← s.asList?).mapM fun p => do
+    match p with
+    | list [a, b] => pure (← a.asNat?, ← b.asNat?)
+    | _ => none
+
+/-- created individuals (id ≥ 1000) print as id 1000 when `mask` is set -/
+def maskPop (mask : Bool) (xs : List Ind) : List Ind :=
+  if mask then xs.map (fun x => if x.id ≥ 1000 then { x with id := 1000 } else x) else xs
+
+def novelPop (nComps n : Nat) : List Ind := (List.range n).map (fun i => { mkNovel nComps i with id := i })
 
 def handle : List Sexp → Option Sexp
+  | [atom "ranges", ws, target] => do
+      match computeRanges (← ws.asNats?) (← target.asNat?) with
+      | some rs => pure (ofRanges rs)
+      | none => pure err
+  -- full level A: the individuals a step tree yields
+  | [atom "apply", step, form, pop, k, ints, floats, nComps, mask] => do
+      let pop ← parsePop pop
+      let mask ← mask.asBool?
+      match apply scripted ⟨← nComps.asNat?⟩ (← parseStep step) (← parseForm pop form) (← k.asNat?)
+          (mkSt (← ints.asNats?) (← floats.asNats?)) with
+      | some (out, _) => pure (ofPop (maskPop mask out))
+      | none => pure err
+  -- sizes only (used where the float-draw order of lazily chained variation steps is not modelled)
+  | [atom "apply_count", step, form, pop, k, nComps] => do
+      let pop ← parsePop pop
+      match apply scripted ⟨← nComps.asNat?⟩ (← parseStep step) (← parseForm pop form) (← k.asNat?) (mkSt [] []) with
+      | some (out, _) => pure (ofNat out.length)
+      | none => pure err
+  | [atom "evaluate", form, pop] => do
+      let pop ← parsePop pop
+      pure (ofPop (evaluateStep (← parseForm pop form)))
+  | [atom "init", ini, k] => do
+      pure (list ((initRun (← parseInit ini) (← k.asNat?)).map ofOrigin))
+  -- generation sizes of a whole run (independent of the draws)
+  | [atom "gp_sizes", step, size, gens, nComps] => do
+      let n ← size.asNat?
+      let nc ← nComps.asNat?
+      match gpGenerations scripted ⟨nc⟩ (← parseStep step) n (← gens.asNat?) (novelPop nc n) (mkSt [] []) with
+      | some (gs, _) => pure (ofNats (gs.map List.length))
+      | none => pure err
+  -- a whole run, individuals of every generation
+  | [atom "gp", step, size, gens, pop, ints, floats, nComps, mask] => do
+      let mask ← mask.asBool?
+      match gpGenerations scripted ⟨← nComps.asNat?⟩ (← parseStep step) (← size.asNat?) (← gens.asNat?) (← parsePop pop)
+          (mkSt (← ints.asNats?) (← floats.asNats?)) with
+      | some (gs, _) => pure (list (gs.map fun g => ofPop (maskPop mask g)))
+      | none => pure err
+  -- property predicates evaluated on implementation output
+  | [atom "prop_ranges", ws, target, rs] => do
+      pure (ofBool (rangesOk (← ws.asNats?).length (← target.asNat?) (← parseRanges rs)))
+  | [atom "prop_count", k, n] => do
+      pure (ofBool ((← k.asNat?) == (← n.asNat?)))
+  | [atom "prop_gen_counts", size, counts] => do
+      let n ← size.asNat?
+      pure (ofBool ((← counts.asNats?).all (· == n)))
   | _ => none
 
 end GEVerif.Drive.C15
